@@ -290,6 +290,13 @@ var errorPathTemplates = []struct {
 	{"try {\ncallcb0(func() {\nx = [1][5]\n})\nprobe(\"after\")\n} catch e {\nprobe(\"caught\")\n}", []string{vals.Encode("caught")}, ""},
 	{"try {\nprobe(cbv(func(v) {\nthrow \"in-cbv\"\n}, 1))\n} catch e {\nprobe(\"caught\")\n}", []string{vals.Encode("caught")}, ""},
 	{"func run() {\neachcb([1, 2], func(x) {\nif x == 1 {\nthrow \"first\"\n}\nprobe(x)\n})\nreturn \"completed\"\n}\nprobe(run())", []string{}, "*"},
+	// an error raised by the LOW bound of a slice expression / slice assignment is not lost behind the high bound
+	{"a = [1, 2, 3]\nhi = 2\nfunc low() {\nthrow \"low\"\n}\ntry {\nx = a[low():hi]\nprobe(\"after\")\n} catch e {\nprobe(\"caught\")\n}", []string{vals.Encode("caught")}, ""},
+	{"a = [1, 2, 3]\nhi = 2\ntry {\nx = a[nosuch:hi]\nprobe(\"after\")\n} catch e {\nprobe(\"caught\")\n}", []string{vals.Encode("caught")}, ""},
+	{"a = [1, 2, 3]\nhi = 2\nfunc low() {\nthrow \"low\"\n}\ntry {\na[low():hi] = [9]\nprobe(\"after\")\n} catch e {\nprobe(\"caught\")\n}\nprobe(a)", []string{vals.Encode("caught"), vals.Encode([]interface{}{int64(1), int64(2), int64(3)})}, ""},
+	{"a = [1, 2, 3]\nhi = 2\nx = a[nosuch():id(hi)]\nprobe(\"after\")", []string{}, "*"},
+	{"s = \"abcdef\"\nhi = 4\ntry {\nx = s[1 / nosuch:hi]\nprobe(\"after\")\n} catch e {\nprobe(\"caught\")\n}", []string{vals.Encode("caught")}, ""},
+	{"a = [1, 2, 3]\nlo = 0\ntry {\nx = a[lo:nosuch]\nprobe(\"after\")\n} catch e {\nprobe(\"caught\")\n}", []string{vals.Encode("caught")}, ""},
 	{"func walk(n) {\ndefer probe(100 + n)\nif n > 0 {\nwalk(n - 1)\n}\n}\nwalk(2)\nwalk(2)", []string{"(i 100)", "(i 101)", "(i 102)", "(i 100)", "(i 101)", "(i 102)"}, ""},
 	{"func tr(p) {\ndefer probe(\"close-\" + p)\nif len(p) < 2 {\ntr(p + \"l\")\ntr(p + \"r\")\n}\n}\ntr(\"t\")", []string{vals.Encode("close-tl"), vals.Encode("close-tr"), vals.Encode("close-t")}, ""},
 	{"func rel(n) {\ndefer probe(200 + n)\nif n == 0 {\nthrow \"bottom\"\n}\nrel(n - 1)\n}\ntry {\nrel(2)\n} catch e {\n}\ntry {\nrel(2)\n} catch e {\n}", []string{"(i 200)", "(i 201)", "(i 202)", "(i 200)", "(i 201)", "(i 202)"}, ""},
@@ -317,6 +324,31 @@ func streamErrors(o *Out, r *rand.Rand, n int, thorough bool) {
 		if res.hung || res.panicked || strings.Join(res.trace, " ") != strings.Join(c.want, " ") || (c.wantErr == "") != (gotErr == "") {
 			o.Fail(Failure{Oracle: "error-paths", Key: "error-path:" + firstLine(c.src), Input: c.src,
 				Detail: fmt.Sprintf("expected trace %v and error %q; got trace %v and error %q (panicked=%v)", c.want, c.wantErr, res.trace, gotErr, res.panicked)})
+		}
+	}
+	// deferred HOST calls still run - once, last registered first - when the invocation ends by an interruption: cancel at
+	// every poll of a program whose invocations have registered their deferred calls and then spin
+	for _, src := range []string{
+		"func f() {\ndefer probe(\"release B\")\ndefer probe(\"release A\")\nfor {\n}\n}\ndefer probe(\"release TOP\")\nf()",
+		"func g() {\ndefer probe(1)\nfunc() {\ndefer probe(2)\nfor {\n}\n}()\n}\ng()",
+	} {
+		stmt, err := parser.ParseSrc(src)
+		if err != nil {
+			o.Fail(Failure{Oracle: "errors-template-parses", Key: "errors-template-parse", Input: src, Detail: err.Error()})
+			continue
+		}
+		for k := 12; k <= 24; k += 3 {
+			res := runVM(stmt, k, 4*time.Second)
+			o.Case(fmt.Sprintf("(run %d %d %s)", modelFuel, k, astser.Prog(stmt)), res.line, fmt.Sprintf("[cancel at poll %d] %s", k, src), true)
+			o.Sum.Hist["defer-on-interrupt"]++
+			want := 3
+			if strings.Contains(src, "func g") {
+				want = 2
+			}
+			if res.hung || res.panicked || res.err == nil || len(res.trace) != want {
+				o.Fail(Failure{Oracle: "defers-run-on-every-exit", Key: "defer-skipped-on-interrupt", Input: fmt.Sprintf("[cancel at poll %d] %s", k, src),
+					Detail: fmt.Sprintf("expected the %d deferred host calls to run and the interruption to be reported; trace %v, error %v", want, res.trace, res.err)})
+			}
 		}
 	}
 	for _, t := range deferResultTemplates {
